@@ -368,11 +368,21 @@ def write_bam(case, reads, path, *, read_groups=True, extra_rg=None, sort=True):
     return path
 
 
-def write_ped(trios, path, family="fam"):
-    """trios: [[father, mother, child]]"""
+def write_ped(trios, path, family="fam", founders=None):
+    """trios: [[father, mother, child]]; founders: None, "first" or "last" - also write the customary lines of the
+    individuals without parents (paternal and maternal id 0), before or after the children's lines"""
     with open(path, "w") as f:
-        for fa, mo, ch in trios:
-            f.write("%s\t%s\t%s\t%s\t0\t1\n" % (family, ch, fa, mo))
+        lines = ["%s\t%s\t%s\t%s\t0\t1\n" % (family, ch, fa, mo) for fa, mo, ch in trios]
+        extra = []
+        if founders:
+            children = {ch for _, _, ch in trios}
+            seen = []
+            for fa, mo, _ in trios:
+                for x in (fa, mo):
+                    if x not in children and x not in seen:
+                        seen.append(x)
+            extra = ["# founders\n"] + ["%s\t%s\t0\t0\t%d\t1\n" % (family, x, 1 + i % 2) for i, x in enumerate(seen)] + ["\n"]
+        f.write("".join(extra + lines if founders == "first" else lines + extra))
     return path
 
 
